@@ -72,6 +72,15 @@ type c40Case struct {
 	// Pause/Continue-observing engine wrapper (explicit instrumentation) instead
 	// of the builder's monitor (race detector undisturbed).
 	Probe bool `json:"probe,omitempty"`
+	// Early: the port is announced before Run() is started instead of after the
+	// first handled event, so the first requests may arrive while the run loop
+	// is only starting (Pause() with no loop active yet, Run() entering inside
+	// the pauser's Pause()...Continue() bracket).
+	Early bool `json:"early,omitempty"`
+	// EarlyDelayUS (Early only): wall-clock microseconds the engine goroutine
+	// waits between the announcement and the call of Run(), so that requests are
+	// already being served when the run loop starts.
+	EarlyDelayUS int `json:"early_delay_us,omitempty"`
 }
 
 const c40SlowName = "Slow"
@@ -758,12 +767,12 @@ type c40Announce struct {
 
 // runLeg runs the assembled simulation to completion on a goroutine of its own
 // with a bounded wait. announce (may be nil) is called on the engine goroutine
-// when the first event has been handled, i.e. when the simulation runs: the
-// property is about requests made while a simulation runs, and a request that
-// arrives while Run() is only starting meets a different, engine-level problem
-// (Pause() returns at once when no run loop is active yet, and a Run() that
-// starts inside the pauser's bracket reads the event queue — noMoreEvent() —
-// before it looks at the pause flag: see TestReproC40PauseBeforeRun). The file
+// when the first event has been handled, i.e. when the run loop is certainly
+// in progress; with c.Early it is called before Run() is started, so requests
+// may also meet a run loop that is only starting (Pause() returns at once when
+// no run loop is active yet, and a Run() that starts inside the pauser's
+// bracket must not look at the event queues before it looks at the pause flag:
+// see TestC40FixedPauseBeforeRun and the repaired finding). The file
 // write is the only thing the engine goroutine does that an HTTP goroutine can
 // synchronise with, once, before any request exists. afterRun (may be nil) is
 // called once Run has returned and must return before the outcome is taken.
@@ -776,6 +785,10 @@ func (s *c40Sim) runLeg(c c40Case, announce func(), afterRun func() bool) (o c40
 	}
 	done := make(chan fin, 1)
 	s.rec.first = announce
+	if c.Early && announce != nil {
+		s.rec.first = nil
+		announce()
+	}
 	go func() {
 		var f fin
 		func() {
@@ -786,6 +799,9 @@ func (s *c40Sim) runLeg(c c40Case, announce func(), afterRun func() bool) (o c40
 					f.pan = fmt.Sprintf("%v\n%s", r, buf)
 				}
 			}()
+			if c.Early && c.EarlyDelayUS > 0 {
+				time.Sleep(time.Duration(c.EarlyDelayUS) * time.Microsecond)
+			}
 			f.start = time.Now().UnixNano()
 			err := s.engine.Run()
 			if err != nil {
